@@ -5,6 +5,7 @@ import (
 	"go/ast"
 	"go/token"
 	"go/types"
+	"golang.org/x/tools/go/packages"
 	"sort"
 	"strings"
 )
@@ -430,6 +431,62 @@ func rulePanic1(c *Ctx) {
 
 func ruleEnvChk(c *Ctx) {
 	c.R.Rule("ENVCHK", 4, "the compiled closure is called only after envCheck(compile-time env, run-time env) returned nil; envCheck iterates the compile-time env and asserts presence and types.Equals for every name")
+
+	// ENVCHK-0: the closure that is bound to a compile-time environment was compiled against that very environment. envCheck
+	// compares the run-time data with env0; that protects the compiled code only if the code's typing assumptions are env0's.
+	// At every call makeCallable(X, E): X is the result of CompileExpr(_, E) in the same function, with the same variable E.
+	n0 := 0
+	c.eachFuncDecl(func(pk *packages.Package, fd *ast.FuncDecl) {
+		if fd.Body == nil || short(pk.PkgPath) != "yae" {
+			return
+		}
+		calls := c.callsTo(fd.Body, "yae.Expr.makeCallable")
+		if len(calls) == 0 {
+			return
+		}
+		owner := fnName("yae", fd)
+		// every value a variable can hold (all assignments), not just a single definition
+		vals := map[types.Object][]ast.Expr{}
+		ast.Inspect(fd.Body, func(x ast.Node) bool {
+			if as, ok := x.(*ast.AssignStmt); ok {
+				for i, l := range as.Lhs {
+					if o := c.objOf(l); o != nil {
+						if len(as.Lhs) == len(as.Rhs) {
+							vals[o] = append(vals[o], as.Rhs[i])
+						} else {
+							vals[o] = append(vals[o], as.Rhs[0])
+						}
+					}
+				}
+			}
+			return true
+		})
+		for _, call := range calls {
+			if len(call.Args) != 2 {
+				continue
+			}
+			n0++
+			envObj := c.objOf(call.Args[1])
+			ok, why := envObj != nil, "the environment argument is not a variable"
+			var srcs []ast.Expr
+			if id, isID := unparen(call.Args[0]).(*ast.Ident); isID {
+				srcs = vals[c.objOf(id)]
+			} else {
+				srcs = []ast.Expr{call.Args[0]}
+			}
+			if len(srcs) == 0 {
+				ok, why = false, "the closure argument has no visible definition"
+			}
+			for _, e := range srcs {
+				ce, isCall := unparen(e).(*ast.CallExpr)
+				if !isCall || c.calleeName(ce) != "yae.Expr.CompileExpr" || len(ce.Args) != 2 || c.objOf(ce.Args[1]) != envObj {
+					ok, why = false, "the closure can be "+src(e)+", which is not CompileExpr(.., "+src(call.Args[1])+")"
+				}
+			}
+			c.R.Check(ok, owner, "closure bound to the environment it was compiled against", call.Pos(), "makeCallable(CompileExpr(_, env), env)", why+": code specialised to one type environment (resolved overloads, typed opcodes, unchecked casts) is guarded by an envCheck against another")
+		}
+	})
+	c.R.Check(n0 >= 1, "yae", "makeCallable call sites found", token.NoPos, fmt.Sprintf("%d", n0), "no call of makeCallable found")
 
 	// ENVCHK-1: Callable literal
 	mk := c.FuncDecl("yae", "Expr.makeCallable")
